@@ -178,6 +178,21 @@ def template(tid):
         v = f.createVariable('E', 'f', ('lev10', 'lev2'))
         v[...] = _tok((2, 2), 980, 'f')
         f.title = 'numbered dimensions'
+    elif tid == 'T10':
+        # integer codes of large magnitude (dates as YYYYJJJ): neighbouring
+        # values differ by far less than 1e-5 relative
+        f.createDimension('t', 3).setunlimited(True)
+        f.createDimension('x', 2)
+        v = f.createVariable('DATE', 'i', ('t', 'x'))
+        v[...] = [[2019001, 2019002], [2019003, 2019021], [2019022, 2020001]]
+        v = f.createVariable('DATEM', 'i', ('t', 'x'), fill_value=-1)
+        v[...] = np.ma.masked_array(
+            [[2019001, 2019002], [2019003, 2019021], [2019022, 2020001]],
+            mask=[[0, 0], [1, 0], [0, 0]])
+        v = f.createVariable('FLAG', 'i', ('t',))
+        v[...] = [1, 2, 1]
+        v = f.createVariable('Q', 'd', ('t', 'x'))
+        v[...] = [[1, 2], [3, 2], [5, 1]]
     elif tid == 'M1':
         # the template of the bounded model spec/PncCore_MC.tla (M1)
         f.createDimension('t', 2).setunlimited(True)
